@@ -3,3 +3,6 @@ import BindgenModel.Model.BitfieldUnit
 import BindgenModel.Model.Depfile
 import BindgenModel.Model.Includes
 import BindgenModel.Model.CDecl
+import BindgenModel.Model.Post
+import BindgenModel.Model.Format
+import BindgenModel.Model.Pipe
